@@ -269,7 +269,11 @@ pub fn iotrack_available() -> bool {
 }
 
 fn power_case() -> impl Strategy<Value = PowerCase> {
-	(crash_scenario(3, 4, 12, true, 40_000), any::<u64>()).prop_map(|(sc, sample_seed)| PowerCase { sc, sample_seed, only: None })
+	(crash_scenario(3, 4, 12, true, 40_000), any::<u64>()).prop_map(|(mut sc, sample_seed)| {
+		// the property is about power loss with the sync options on
+		sc.cfg.sync_data = true;
+		PowerCase { sc, sample_seed, only: None }
+	})
 }
 
 fn run(ctx: &Ctx) {
